@@ -917,10 +917,15 @@ func (a *fnAn) branch(b *ssa.BasicBlock, st tstate) []tstate {
 	}
 	// a case split on the condition itself (Probe only): one edge is cut
 	if av, ok := a.t.assume[iff.Cond]; ok && av.P != nil && av.P.Lo != nil && av.P.Hi != nil && av.P.Lo.Cmp(av.P.Hi) == 0 {
+		// (the surviving edge still learns what the condition says: err != nil assumed true makes err non-nil)
 		if av.P.Lo.Sign() != 0 {
-			outs[0] = st.clone()
+			if outs[0] = a.refine(st.clone(), iff.Cond, true, b); outs[0] == nil {
+				outs[0] = st.clone()
+			}
 		} else {
-			outs[1] = st.clone()
+			if outs[1] = a.refine(st.clone(), iff.Cond, false, b); outs[1] == nil {
+				outs[1] = st.clone()
+			}
 		}
 		return outs
 	}
